@@ -146,6 +146,20 @@ CHECKS = {
               'histogram shows how many rejections carry a side-effect message (compile-time contexts may reject a direct write '
               'for computability instead).'),
     ),
+    'C12': dict(
+        engine='oracle-server + cell enumeration (harness/py/prop_C12.py, cells.py)',
+        technique='exhaustive cell enumeration with a twin (metamorphic) oracle: constness source x write form; the write to the constant must be rejected, the same operation on a mutable object of the same type and scope must be accepted',
+        category='exploration',
+        text=('31 constness sources (const globals, array elements, struct fields, typedef\'d const, template locals and parameters, '
+              'function locals and parameters by value and by reference, iteration and select binders; in update labels and in '
+              'function bodies) x 25 write forms (every assignment operator, ++/--, inline-if lvalues with the const branch on '
+              'either side, results of assignments as lvalues, reference arguments of functions), whole-object writes, reference '
+              'arguments of template instantiations and quantifier binders are enumerated completely. The write to the constant '
+              'must be rejected and its mutable twin accepted.'),
+        design_ref='DESIGN.md 4/C12',
+        note=('Exhaustive for the stated finite cell table only. The "via comma" form of the quantifier text is not expressible in '
+              'the grammar and is listed as unreachable. Quantifier binders have no accepted twin.'),
+    ),
     'C14': dict(
         engine='oracle-server expression builder + TypeChecker::checkExpression; cell enumeration + Hypothesis (harness/py/prop_C14.py)',
         technique='metamorphic testing (operand swap): acceptance and result-type kind of a op b vs b op a, c ? a : b vs !c ? b : a (bare and inside lvalue / reference-argument contexts), f(A&) with a B variable vs f(B&) with an A variable; complete enumeration of type-class pairs x operators, random representatives',
